@@ -33,7 +33,17 @@ Definition obj_with_seed (o : obj) (s : option Z) : obj := mkObj (o_cls o) s.
 
 (** What is observable of a run: the values handed to the backend; a referenced object is
     observed by its fields at the time of the call, not by its identity. *)
-Inductive oval := VZ (z : Z) | VOptZ (o : option Z) | VBool (b : bool) | VObj (o : obj).
+(* Python dict with opaque keys/values (EmulatorBuilder._custom_args): insertion-ordered *)
+Definition dict := list (Z * Z).
+Fixpoint dict_set (d : dict) (k v : Z) : dict :=
+  match d with
+  | [] => [(k, v)]
+  | (k', v') :: t => if Z.eqb k k' then (k, v) :: t else (k', v') :: dict_set t k v
+  end.
+(* `a | b` on dicts: a new dict *)
+Definition dict_or (a b : dict) : dict := fold_left (fun d kv => dict_set d (fst kv) (snd kv)) b a.
+
+Inductive oval := VZ (z : Z) | VOptZ (o : option Z) | VBool (b : bool) | VObj (o : obj) | VDict (d : dict).
 Definition obs := list (string * oval).
 
 (* numeric encoding used only by the correspondence harness *)
@@ -44,5 +54,6 @@ Definition enc_oval (v : oval) : list Z :=
   | VOptZ o => enc_opt o
   | VBool b => [if b then 1 else 0]
   | VObj o => o_cls o :: enc_opt (o_seed o)
+  | VDict d => Z.of_nat (List.length d) :: flat_map (fun kv => [fst kv; snd kv]) d
   end.
 Definition enc_obs (o : obs) : list Z := flat_map (fun p => enc_oval (snd p)) o.
